@@ -56,8 +56,13 @@ CLAIMS = {
          "a custom function'. The model is tied to the code by receivers x argument tuples x boundary counts; purity and UTF-8 validity of "
          "every implementation result are observed by the run, not proved.", "8.C11",
          "model-meets-contract theorem over all names/receivers/arguments + correspondence + extracted contract as oracle"),
- "C12": ("other", "goval/view specification in Coq, extracted; type-directed Go values built by reflection. " + PENDING, "8.C12",
-         "extracted Coq specification as oracle + data-binding model correspondence (theorems pending)"),
+ "C12": ("proof", "Theorems by induction over the abstract Go value (through slices, maps, structs, pointers): the data conversion succeeds "
+         "exactly when no unsupported kind occurs at any depth outside unexported fields; scalars keep their value (integers as int64), "
+         "pointers are transparent, slice elements correspond position by position, map entries key by key, exported struct fields name by "
+         "name and through the lower-cased first letter, unexported fields are unreachable; a data entry is bound under its key. The model "
+         "is tied to NativeToObject/EnvFromMap/evalObjectIndexExp by type-directed Go values built by reflection; caller-data immutability "
+         "is observed by deep comparison, not proved.", "8.C12",
+         "structural induction over Go values (custom nested induction principle) + correspondence on reflected data"),
  "C13": ("other", "Fault injection with the line known by construction; model lines = implementation lines. " + PENDING, "8.C13",
          "fault injection oracle + model correspondence (theorems pending)"),
  "C14": ("proof", "A Go map is an association list with distinct keys presented in an arbitrary permutation. Theorems: the key sort of two "
@@ -80,8 +85,12 @@ CLAIMS = {
          "default-error-page.tw every run and evaluated with path, line and message left symbolic - is ONE constant when debug is off "
          "(non-interference: two different failures give the same body) and contains path, line and message when debug is on.", "8.C17",
          "symbolic evaluation of the regenerated error page (vm_compute + reflection) + case analysis of Response + correspondence"),
- "C18": ("other", "Loader model over an abstract file system; tree/fault enumeration. " + PENDING, "8.C18",
-         "extracted Coq specification as oracle + loader model correspondence (theorems pending)"),
+ "C18": ("proof", "Theorems on the loader model: the registered name of dir/NAME.ext is exactly NAME for every NAME (extension or directory "
+         "name occurring inside it included), so names are injective; the files found are exactly the non-directories under the directory "
+         "whose path ends in the extension; loading is all-or-nothing and reports the first faulty file in name order; layouts are not "
+         "registered; an unknown name is 'template not found'; EvaluateFile = EvaluateString of the content. Tied to files.go / "
+         "parser_utils.go by tree enumeration over directory spellings, extensions and every single-file fault.", "8.C18",
+         "list/prefix-suffix lemmas + induction over the file list + correspondence on enumerated trees and faults"),
  "C19": ("proof", "Invariant proved in Coq: the lexer's counters equal the pure position function at every reachable offset; "
          "fixed-width and EOF tokens carry exactly lc(start)/lc(end). The lexer model is tied to lexer.go by translator "
          "tables plus a full-token-list correspondence run; the extracted tiling checker is applied to the implementation's tokens.",
